@@ -1033,6 +1033,65 @@ pub fn seeds() -> Vec<RawSeed> {
     build().into_iter().filter_map(|b| b.bytes.ok().map(|bytes| RawSeed::new(b.fmt, b.name, bytes))).collect()
 }
 
+/// Additional seeds of the thorough tier: the MVER values the writer emits beyond MoP (18..23) for
+/// rich roots and groups, a Cataclysm group, and roots / groups with every later-expansion chunk.
+/// A seed the writer refuses or `parse_wmo` does not accept is left out.
+pub fn seeds_thorough_extra() -> Vec<RawSeed> {
+    const MORE: [(WmoVersion, &str); 6] = [
+        (WmoVersion::Wod, "wod"),
+        (WmoVersion::Legion, "legion"),
+        (WmoVersion::Bfa, "bfa"),
+        (WmoVersion::Shadowlands, "shadowlands"),
+        (WmoVersion::Dragonflight, "dragonflight"),
+        (WmoVersion::WarWithin, "tww"),
+    ];
+    let accepted = |b: &[u8]| guard(|| wow_wmo::parse_wmo(&mut Cursor::new(b)).map(|_| ()).map_err(|e| e.to_string())).is_ok();
+    let mut out = Vec::new();
+    for (ver, tag) in MORE {
+        if let Ok(b) = write_root(&rich_root(ver), ver).and_then(|raw| complete_root(&raw, ver)).map(|cs| emit_all(&cs)) {
+            if accepted(&b) {
+                out.push(RawSeed::new("wmo_root", format!("root_{tag}_rich"), b));
+            }
+        }
+    }
+    // later-expansion chunks on the newest container version
+    if let Ok(b) = write_root(&rich_root(WmoVersion::WarWithin), WmoVersion::WarWithin).and_then(|raw| complete_root(&raw, WmoVersion::WarWithin)).map(|mut cs| {
+        let extra = root_new_chunks();
+        insert_after(&mut cs, "MOGI", extra[0].clone());
+        cs.extend(extra[1..].iter().cloned());
+        emit_all(&cs)
+    }) {
+        if accepted(&b) {
+            out.push(RawSeed::new("wmo_root", "root_tww_newchunks", b));
+        }
+    }
+    let groups: [(WmoVersion, &str, usize, usize, u32, bool); 7] = [
+        (WmoVersion::Cataclysm, "cata", 2, 2, 0, false),
+        (WmoVersion::Wod, "wod", 3, 2, 0x41, false),
+        (WmoVersion::Legion, "legion", 2, 2, 0x1, true),
+        (WmoVersion::Bfa, "bfa", 3, 2, 0, false),
+        (WmoVersion::Shadowlands, "shadowlands", 2, 1, 0x40, false),
+        (WmoVersion::Dragonflight, "dragonflight", 1, 2, 0, true),
+        (WmoVersion::WarWithin, "tww", 3, 2, 0x41, false),
+    ];
+    for (ver, tag, motv_sets, mocv_sets, flags2, mliq_canonical) in groups {
+        let newchunks = matches!(ver, WmoVersion::Legion | WmoVersion::WarWithin);
+        let extra = if newchunks {
+            let mut e = group_new_chunks_a();
+            e.extend(group_new_chunks_b());
+            e
+        } else {
+            vec![]
+        };
+        if let Ok(b) = write_group(&rich_group(), ver).and_then(|raw| complete_group(&raw, GroupExtras { motv_sets, mocv_sets, flags2, mliq_canonical, extra })) {
+            if accepted(&b) {
+                out.push(RawSeed::new("wmo_group", format!("group_{tag}_{}", if newchunks { "newchunks" } else { "rich" }), b));
+            }
+        }
+    }
+    out
+}
+
 // ------------------------------------------------------------------ self test
 
 fn guard<T>(f: impl FnOnce() -> Result<T, String>) -> Result<T, String> {
